@@ -146,6 +146,16 @@ fn compare(a: &Number, b: &Number) -> std::cmp::Ordering {
     }
 }
 
+/// `f64::acosh` overflows to infinity above f64::MAX / 2, where acosh(x) = ln(2x) is still finite.
+fn acosh(x: f64) -> f64 {
+    let y = x.acosh();
+    if y.is_infinite() && x.is_finite() {
+        x.ln() + std::f64::consts::LN_2
+    } else {
+        y
+    }
+}
+
 pub fn eval(expr: Node) -> Result<Number, Box<dyn error::Error>> {
     #[cfg(feature = "verif_hooks")]
     crate::verif_hooks::tick();
@@ -479,8 +489,8 @@ pub fn eval(expr: Node) -> Result<Number, Box<dyn error::Error>> {
         Arcosh(sub_expr) => {
             let sub_expr = eval(*sub_expr)?;
             match sub_expr {
-                Number::Float(f) => Ok(Number::from(f.acosh())),
-                Number::Integer(i) => Ok(Number::from((i as f64).acosh())),
+                Number::Float(f) => Ok(Number::from(acosh(f))),
+                Number::Integer(i) => Ok(Number::from(acosh(i as f64))),
             }
         }
         Artanh(sub_expr) => {
